@@ -215,22 +215,30 @@ func runR19(c *Ctx) {
 		}
 	}
 	ep := "internal/ecolumn"
-	set, isSet := p.Func(ep, "bitset.set"), p.Func(ep, "bitset.isSet")
-	bs := p.Named(ep, "bitset")
-	if set == nil || isSet == nil || bs == nil {
-		c.undecided(ep+".bitset", "-", "bitset not found")
-	} else {
-		arr, _ := bs.Underlying().(*types.Array)
-		for _, fn := range []*ssa.Function{set, isSet} {
-			shr := findBinOpConst(fn, token.SHR)
-			and := findBinOpConst(fn, token.AND)
-			key := ep + ".bitset|" + fn.Name()
-			okAll := arr != nil && len(shr) == 1 && len(and) >= 1 && and[0] == 1<<shr[0]-1 && uint64(arr.Len())<<shr[0] >= 256
-			if okAll {
-				c.ok(key, p.pos(fn.Pos()), fmt.Sprintf("word = v>>%d, bit = v&%#x, %d words cover all 256 values", shr[0], and[0], arr.Len()))
+	// the layout of the enum bitset (word = code>>k, bit = code&(2^k-1), enough words for 256 codes) is decided
+	// access by access by R121's analysis; R19 reports its verdict for the type as a whole
+	{
+		sub := &Ctx{P: p, rule: &Rule{ID: "R121"}}
+		runR121(sub)
+		nBad, nOK := 0, 0
+		first := ""
+		for _, o := range sub.obls {
+			if o.Status == Discharged {
+				nOK++
 			} else {
-				c.bad(key, p.pos(fn.Pos()), "word shift, bit mask and array size of the enum bitset do not describe one layout covering every enumVal")
+				nBad++
+				if first == "" {
+					first = o.Pos + ": " + o.Detail
+				}
 			}
+		}
+		switch {
+		case nBad > 0:
+			c.bad(ep+".bitset|layout", "-", "word shift, bit mask and array size of the enum bitset do not describe one layout covering every enumVal: "+first)
+		case nOK < 2:
+			c.undecided(ep+".bitset|layout", "-", "fewer than two accesses to the bitset found")
+		default:
+			c.ok(ep+".bitset|layout", "-", fmt.Sprintf("%d accesses use word = code>>k, bit = 1<<(code&(2^k-1)) with enough words for all 256 codes", nOK))
 		}
 	}
 	if pk := p.PkgByID[rel(ep)]; pk != nil {
@@ -286,36 +294,94 @@ func runR121(c *Ctx) {
 		n, ok := t.(*types.Named)
 		return ok && n.Obj() == bs.Obj()
 	}
+	// A value may be the result of a small helper of the package (`word, mask := position(val)`): unwrap follows
+	// a call / an extract of a call into the helper's single return expression, remembering which argument each
+	// parameter stands for, so that the code reached at the end is a value of the accessing function.
+	type bnd struct {
+		v    ssa.Value
+		bind map[*ssa.Parameter]ssa.Value
+	}
+	var unwrap func(b bnd, depth int) bnd
+	unwrap = func(b bnd, depth int) bnd {
+		for depth < 6 {
+			depth++
+			b.v = stripConv(b.v)
+			if prm, ok := b.v.(*ssa.Parameter); ok && b.bind != nil {
+				if a, ok := b.bind[prm]; ok {
+					b = bnd{a, nil}
+					continue
+				}
+			}
+			var call *ssa.Call
+			idx := 0
+			switch t := b.v.(type) {
+			case *ssa.Extract:
+				call, _ = t.Tuple.(*ssa.Call)
+				idx = t.Index
+			case *ssa.Call:
+				call = t
+			}
+			if call == nil {
+				break
+			}
+			g := call.Call.StaticCallee()
+			if g == nil || g.Blocks == nil || g.Pkg == nil || g.Pkg.Pkg.Path() != rel(ep) || len(call.Call.Args) != len(g.Params) {
+				break
+			}
+			var ret *ssa.Return
+			n := 0
+			eachInstr(g, func(in ssa.Instruction) {
+				if r, ok := in.(*ssa.Return); ok {
+					ret = r
+					n++
+				}
+			})
+			if n != 1 || idx >= len(ret.Results) {
+				break
+			}
+			nb := map[*ssa.Parameter]ssa.Value{}
+			for i, prm := range g.Params {
+				a := unwrap(bnd{call.Call.Args[i], b.bind}, depth)
+				nb[prm] = a.v
+			}
+			b = bnd{ret.Results[idx], nb}
+		}
+		return b
+	}
+	operand := func(b bnd, v ssa.Value) bnd { return unwrap(bnd{v, b.bind}, 0) }
 	// code >> k  -> (code, k)
 	shiftOf := func(v ssa.Value) (ssa.Value, int64, bool) {
-		b, ok := stripConv(v).(*ssa.BinOp)
-		if !ok || b.Op != token.SHR {
+		b := unwrap(bnd{v, nil}, 0)
+		bo, ok := b.v.(*ssa.BinOp)
+		if !ok || bo.Op != token.SHR {
 			return nil, 0, false
 		}
-		k, ok := constInt(b.Y)
+		k, ok := constInt(bo.Y)
 		if !ok {
 			return nil, 0, false
 		}
-		return stripConv(b.X), k, true
+		return operand(b, bo.X).v, k, true
 	}
 	// 1 << (code & mask) -> code
 	bitOf := func(v ssa.Value, k int64) (ssa.Value, bool) {
-		b, ok := stripConv(v).(*ssa.BinOp)
-		if !ok || b.Op != token.SHL {
+		b := unwrap(bnd{v, nil}, 0)
+		bo, ok := b.v.(*ssa.BinOp)
+		if !ok || bo.Op != token.SHL {
 			return nil, false
 		}
-		if one, ok := constInt(b.X); !ok || one != 1 {
+		if one, ok := constInt(stripConv(bo.X)); !ok || one != 1 {
 			return nil, false
 		}
-		a, ok := stripConv(b.Y).(*ssa.BinOp)
+		ab := operand(b, bo.Y)
+		a, ok := ab.v.(*ssa.BinOp)
 		if !ok || a.Op != token.AND {
 			return nil, false
 		}
 		if m, ok := constInt(a.Y); ok && m == (int64(1)<<uint(k))-1 {
-			return stripConv(a.X), true
+			return operand(ab, a.X).v, true
 		}
 		if m, ok := constInt(a.X); ok && m == (int64(1)<<uint(k))-1 {
-			return stripConv(a.Y), true
+			return operand(ab, a.Y).v, true
 		}
 		return nil, false
 	}
